@@ -17,6 +17,8 @@ RULE = ("(a) single operations: every value-returning operator x operand-type co
         "re-verified by plain evaluation. Additionally, with error checking off and integer operands that are not bits: when the recorded "
         "witness satisfies every emitted constraint, every boolean-typed result in it must be 0 or 1 (an explicit satisfying assignment, no search). Non-trivial = the operation allocated >= 1 free variable and the search "
         "visited >= 2 nodes; distinct by (program digest).")
+RULE += " Extensions (seeded rounds 10-15): a pass with error checking off over integer operands that are not bits (a satisfying assignment with an ill-typed boolean result), two nested true secret guards, operations refused at a small bitlength and repeated on the same operands at a larger one, values reassembled from raw wires and decomposed again."
+
 
 VALUE_OPS = (refsem.BINARY + ["neg", "abs", "invert", "check_zero", "check_nonzero", "check_positive", "check_positive_n", "ite",
                               "if_else", "to_bits", "to_bits_n", "toF", "ensurefxp", "pack_int", "frombits_tobits", "frombits_shift", "unpack_pack"])
